@@ -536,6 +536,30 @@ fn genesis_open_node() -> Node {
 /// `mcheck __child stf <which>`: spends a coin locked by a hostile covenant through the real apply_tx on a 2 MiB-stack thread.
 pub fn child_main(args: &[String]) {
     let which = args[0].clone();
+    if let Some(h) = which.strip_prefix("restart-at-") {
+        // a node restarted far into the chain: its first calls (opening, sealing and applying an empty block, each with its inflator lookups)
+        // on an ordinary 2 MiB thread stack, in a process that has seen no other height
+        let h: u64 = h.parse().unwrap();
+        let out = child::on_small_stack(move || {
+            let r = guard(move || {
+                let w = world_mel(NetID::Custom02, 1_000_000, 0);
+                let g = w.genesis.clone().seal(None);
+                let far = fabricate(&g, &w.db, NetID::Custom02, h, &[]);
+                let start = Instant::now();
+                let sealed = far.next_unsealed().seal(Some(action_dest(1)));
+                let blk = sealed.to_block();
+                let applied = far.apply_block(&blk).is_ok();
+                let next = sealed.next_unsealed().seal(None).header().height.0;
+                json!({"result": if applied { "accepted" } else { "rejected" }, "next_height": next, "secs": start.elapsed().as_secs_f64()})
+            });
+            match r {
+                Ok(v) => v,
+                Err(p) => json!({"result": "panic", "panic_class": p.class(), "panic_msg": p.msg}),
+            }
+        });
+        println!("{}", out);
+        return;
+    }
     let out = child::on_small_stack(move || {
         let r = guard(move || {
             let ops: Vec<OpCode> = if let Some(k) = which.strip_prefix("vnest-") {
@@ -570,6 +594,42 @@ pub fn child_main(args: &[String]) {
         }
     });
     println!("{}", out);
+}
+
+/// Restarts far into the chain, each in a fresh process on a 2 MiB stack.  Returns false when one of them did not come back.
+fn restart_children(run: &Run, thorough: bool) -> bool {
+    let heights: Vec<u64> = if thorough { vec![1_000, 10_000, 100_000, 2_000_000, 21_949_998, 128_949_998, 4_000_000_000] } else { vec![10_000, 2_000_000, 128_949_998] };
+    run.states_add(heights.len() as u64);
+    let ok = std::sync::atomic::AtomicBool::new(true);
+    heights.par_iter().for_each(|h| {
+        run.transition();
+        let c = format!("restart-at-{}", h);
+        let out = child::run_child(&["stf".to_string(), c.clone()], if thorough { 120.0 } else { 40.0 }, 6 << 30);
+        run.validated();
+        let replay = json!({"restart_at_height": h, "calls": ["from_block", "next_unsealed", "seal(Some)", "apply_block", "next_unsealed", "seal(None)"]});
+        match out {
+            ChildOutcome::Done(v) => {
+                if v["result"] == "panic" {
+                    ok.store(false, std::sync::atomic::Ordering::SeqCst);
+                    run.violation("C09", format!("restart-far-into-the-chain/{}", v["panic_class"].as_str().unwrap_or("?")), format!("a node restarted at height {} panicked in its first block: {}", h, v["panic_msg"].as_str().unwrap_or("")), replay);
+                } else if v["result"] != "accepted" {
+                    run.outcome("restart-far:own-block-rejected(reported under C06/C08)");
+                } else {
+                    run.outcome("restart-far:first-blocks-built");
+                }
+            }
+            ChildOutcome::Timeout(s) => {
+                ok.store(false, std::sync::atomic::Ordering::SeqCst);
+                run.violation("C09", "restart-far-into-the-chain/no-termination".into(), format!("a node restarted at height {} did not finish its first two blocks in {:.0} s", h, s), replay)
+            }
+            ChildOutcome::Signal(sig, err) => {
+                ok.store(false, std::sync::atomic::Ordering::SeqCst);
+                run.violation("C09", format!("restart-far-into-the-chain/process-killed-signal-{}", sig), format!("a node restarted at height {} was killed in its first block (signal {}: {})", h, sig, err.lines().last().unwrap_or("")), replay)
+            }
+            ChildOutcome::Broken(e) => run.machinery_failure(&format!("child {}: {}", c, e)),
+        }
+    });
+    ok.load(std::sync::atomic::Ordering::SeqCst)
 }
 
 fn child_cases(run: &Run, thorough: bool) {
@@ -738,6 +798,12 @@ pub fn run(run: &'static Run) {
         run.cap_hit("the honest set-up sequence panics; the hostile alphabet cannot be driven from it");
         return;
     }
+    // restarts far into the chain come first, in child processes: what kills a process there would kill this one in the
+    // scenarios at great heights below, and then there would be no report at all
+    if !restart_children(run, thorough) {
+        run.cap_hit("a node restarted far into the chain does not come back (reported above); the in-process exploration, which visits such heights too, is not run");
+        return;
+    }
     let deltas: Vec<i8> = if thorough { vec![-128, -127, -1, 0, 1, 127] } else { vec![-128, 127] };
     let mut bases = base_states(thorough);
     let g = genesis_open_node();
@@ -787,12 +853,17 @@ pub fn run(run: &'static Run) {
         cfg.burns = false;
         cfg.max_txs_per_block = 1;
         cfg.seal_actions = vec![None, Some(action_dest(3))];
-        for (name, h) in [("custom02-far-height-21950000", 21_949_998u64), ("custom02-far-height-128950000", 128_949_998)] {
+        for (name, h) in [("custom02-far-height-21950000", 21_949_998u64), ("custom02-far-height-128950000", 128_949_998), ("custom02-far-height-150582831", 150_582_829)] {
             let mut s = sc(name, NetID::Custom02, 0, cfg.clone(), 5);
             s.pre = vec![Action::Jump(h)];
             let st = run_scenario(run, &s, 100_000);
             run.set(&format!("engine_scenario:{}", s.name), json!({"depth_bound_completed": st.depth_completed, "unique_states": st.states, "transitions": st.transitions}));
         }
+    }
+    // real-proof mints far into the chain, where the inflator has grown by more than a hundred bits
+    // (the difficulty-20 proof takes its time: thorough tier; findings X and Y sat at 150,582,831 and 149,000,002)
+    for (h, d) in if thorough { vec![(129_000_000u64, 14u32), (149_000_000, 20), (170_000_000, 14)] } else { vec![(129_000_000u64, 14u32)] } {
+        crate::props::c18::run_world_at(run, NetID::Custom02, Some(h), &[1], &[(d, true)], false);
     }
     // honest histories across the activation of the coin counts (testnet 500, mainnet 830000): spending an address empty afterwards
     for mut sc in crate::props::c20::scenarios(false).into_iter().filter(|s| s.name == "testnet-activation" || s.name == "mainnet-activation-830000") {
